@@ -218,7 +218,12 @@ func processFetchForMessage(deps ServerDeps, conn net.Conn, messageID, uid int64
 	// must keep the byte length: upper-case the ASCII letters only.
 	itemsUpper := asciiUpper(items)
 	responseParts := []string{}
-	var literalData string // Store literal data separately
+	// A literal-valued item is one response part: its name, the octet count
+	// and the data stay together, so every item is followed by its own value
+	// whatever combination of items is requested (RFC 3501 section 7.4.2).
+	literalPart := func(name, data string) string {
+		return fmt.Sprintf("%s {%d}\r\n%s", name, len(data), data)
+	}
 
 	if strings.Contains(itemsUpper, "UID") {
 		responseParts = append(responseParts, fmt.Sprintf("UID %d", uid))
@@ -404,16 +409,12 @@ func processFetchForMessage(deps ServerDeps, conn net.Conn, messageID, uid int64
 					if payload == "" {
 						responseParts = append(responseParts, fmt.Sprintf("BODY[%s] NIL", sectionSpec))
 					} else {
-						if literalData != "" {
-							literalData += " "
-						}
 						// Include partial start position in response if this was a partial fetch
 						if partialStartPos >= 0 {
-							responseParts = append(responseParts, fmt.Sprintf("BODY[%s]<%d>", sectionSpec, partialStartPos))
+							responseParts = append(responseParts, literalPart(fmt.Sprintf("BODY[%s]<%d>", sectionSpec, partialStartPos), payload))
 						} else {
-							responseParts = append(responseParts, fmt.Sprintf("BODY[%s]", sectionSpec))
+							responseParts = append(responseParts, literalPart(fmt.Sprintf("BODY[%s]", sectionSpec), payload))
 						}
-						literalData += fmt.Sprintf("{%d}\r\n%s", len(payload), payload)
 					}
 				}
 			}
@@ -503,8 +504,7 @@ func processFetchForMessage(deps ServerDeps, conn net.Conn, messageID, uid int64
 		headersStr += "\r\n" // Final blank line
 		// Match the exact format the client requested
 		fieldList := strings.Join(requestedHeaders, " ")
-		responseParts = append(responseParts, fmt.Sprintf("BODY[HEADER.FIELDS (%s)]", fieldList))
-		literalData = fmt.Sprintf("{%d}\r\n%s", len(headersStr), headersStr)
+		responseParts = append(responseParts, literalPart(fmt.Sprintf("BODY[HEADER.FIELDS (%s)]", fieldList), headersStr))
 	}
 
 	// Handle BODY.PEEK[TEXT] or BODY[TEXT] - message body only (can be combined with other parts)
@@ -529,11 +529,7 @@ func processFetchForMessage(deps ServerDeps, conn net.Conn, messageID, uid int64
 			}
 		}
 
-		if literalData != "" {
-			literalData += " "
-		}
-		responseParts = append(responseParts, "BODY[TEXT]")
-		literalData += fmt.Sprintf("{%d}\r\n%s", len(body), body)
+		responseParts = append(responseParts, literalPart("BODY[TEXT]", body))
 	}
 
 	// Handle BODY.PEEK[HEADER] or BODY[HEADER] - all headers (check it's not HEADER.FIELDS)
@@ -553,11 +549,7 @@ func processFetchForMessage(deps ServerDeps, conn net.Conn, messageID, uid int64
 			headers = slicePartial(headers, start, length)
 			label = fmt.Sprintf("BODY[HEADER]<%d>", start)
 		}
-		if literalData != "" {
-			literalData += " "
-		}
-		responseParts = append(responseParts, label)
-		literalData += fmt.Sprintf("{%d}\r\n%s", len(headers), headers)
+		responseParts = append(responseParts, literalPart(label, headers))
 	}
 
 	// Handle RFC822.HEADER - return only the header portion
@@ -570,11 +562,7 @@ func processFetchForMessage(deps ServerDeps, conn net.Conn, messageID, uid int64
 			// BODY[HEADER] followed by BODY[TEXT] is the whole message
 			headers = msg[:headerEnd+4]
 		}
-		if literalData != "" {
-			literalData += " "
-		}
-		responseParts = append(responseParts, "RFC822.HEADER")
-		literalData += fmt.Sprintf("{%d}\r\n%s", len(headers), headers)
+		responseParts = append(responseParts, literalPart("RFC822.HEADER", headers))
 	}
 
 	// Handle RFC822.TEXT - body text only (excluding headers)
@@ -585,11 +573,7 @@ func processFetchForMessage(deps ServerDeps, conn net.Conn, messageID, uid int64
 		if headerEnd != -1 {
 			body = msg[headerEnd+4:] // skip the double CRLF
 		}
-		if literalData != "" {
-			literalData += " "
-		}
-		responseParts = append(responseParts, "RFC822.TEXT")
-		literalData += fmt.Sprintf("{%d}\r\n%s", len(body), body)
+		responseParts = append(responseParts, literalPart("RFC822.TEXT", body))
 	}
 
 	// Handle BODY[] / BODY.PEEK[] / RFC822 / RFC822.PEEK - full message
@@ -604,20 +588,11 @@ func processFetchForMessage(deps ServerDeps, conn net.Conn, messageID, uid int64
 			msg = slicePartial(msg, start, length)
 			label = fmt.Sprintf("BODY[]<%d>", start)
 		}
-		if literalData != "" {
-			literalData += " "
-		}
-		responseParts = append(responseParts, label)
-		literalData += fmt.Sprintf("{%d}\r\n%s", len(msg), msg)
+		responseParts = append(responseParts, literalPart(label, msg))
 	}
 
 	if len(responseParts) > 0 {
-		responseStr := fmt.Sprintf("* %d FETCH (%s", seqNum, strings.Join(responseParts, " "))
-		if literalData != "" {
-			responseStr += " " + literalData + ")"
-		} else {
-			responseStr += ")"
-		}
+		responseStr := fmt.Sprintf("* %d FETCH (%s)", seqNum, strings.Join(responseParts, " "))
 		deps.SendResponse(conn, responseStr)
 	} else {
 		deps.SendResponse(conn, fmt.Sprintf("* %d FETCH (FLAGS ())", seqNum))
